@@ -50,6 +50,8 @@ def cases(tier, seed):
             k += 1
     for j, klass in enumerate(['CPAReverse', 'CPAAttack', 'DPAReverse', 'SNRReverse']):
         out.append(dict(gen='run', klass=klass, rule='int', frame_kind=7, sub=core.subseed('C02f', seed, j), must=True))
+    for j, klass in enumerate(('SNRReverse', 'ANOVAReverse', 'NICVReverse', 'MIAReverse')):
+        out.append(dict(gen='run', klass=klass, rule='int', ident=True, sub=core.subseed('C02ident', seed, j), must=True))
     for j, klass in enumerate(('CPAReverse', 'DPAAttack', 'SNRReverse', 'CPAAttack')):
         out.append(dict(gen='run', klass=klass, rule='int', peek=True, sub=core.subseed('C02peek', seed, j), must=True))
     rs = np.random.default_rng(core.subseed('C02r', seed))
@@ -184,8 +186,14 @@ def run_case(case):
         samples = samples.astype('float64') + 0.5 + rng.choice([-1e-9, 1e-9, 0.25], (N, T))
     W = 1 if klass == 'TemplateBuild' else int(rng.integers(1, 4))
     v = rng.integers(0, 256, (N, W)).astype('uint8')
+    ident = (not klass.endswith('Attack')) and klass[:3] in ('ANO', 'NIC', 'SNR', 'MIA') and bool(case.get('ident') or rng.random() < 0.15)
+    if ident:
+        # the intermediate value is a metadata field itself (32-bit class labels): the selection function hands the batch's own array over
+        v = rng.integers(0, 12, (N, W)).astype('int32')
+        t.count('selection_function_returns_the_metadata_itself')
     tid = np.arange(N, dtype='int64').reshape(N, 1)
     ths = scared.traces.read_ths_from_ram(samples=samples, v=v, tid=tid)
+    ths_snapshot = (samples.tobytes(), v.tobytes(), tid.tobytes())
     frame, fidx = _frame(rng, T, kind=case.get('frame_kind'))
     Xf = samples[:, frame if frame is not None else ...]
     chain, cdesc = _chain(rng, Xf.shape[1])
@@ -202,6 +210,8 @@ def run_case(case):
     wide_dt = ['uint16', 'int32', 'int64'][int(rng.integers(3))]
 
     def sf_formula(vv, guesses=None):
+        if ident:
+            return vv
         if wide:
             w16 = (vv.astype('int64') * 251 + 3) % 65536
             if guesses is None:
@@ -226,6 +236,8 @@ def run_case(case):
             return sf_formula(np.asarray(v))
 
     model = scared.Monobit(bit) if dpa else (scared.HammingWeight() if klass != 'TemplateBuild' or rng.random() < 0.5 else scared.Value())
+    if ident:
+        model = scared.Value()
     if wide:
         model = scared.Value()
         t.count('wide_intermediate_values')
@@ -235,6 +247,8 @@ def run_case(case):
             parts = [list(range(9)), [8, 0, 3, 5, 1, 2, 4, 6, 7], list(range(12)), list(range(1, 7)), [2, 3, 4, 5]][int(rng.integers(5))]     # the last two leave values out
         else:
             parts = list(range(256))
+        if ident:
+            parts = [[1, 2, 3, 4, 7, 9, 11], [11, 0, 5, 6, 2], list(range(12))][int(rng.integers(3))]       # class position differs from class value, some values left out
     # transformed whole set (oracle side): frame first, then the chain in list order
     X = Xf
     for p in chain:
@@ -366,6 +380,10 @@ def run_case(case):
     t.check(scared.Container._BATCH_SIZE == before, 'batch_size_setting_not_restored', info)
     dflt = scared.Container.__init__.__defaults__
     t.check(dflt is None or all(not isinstance(d, list) or d == [] for d in dflt), 'shared_default_argument_modified', lambda: dict(info, defaults=repr(dflt)[:200]))
+    # the trace set handed to the containers (samples and metadata held in memory: batches are views of these arrays) is the caller's
+    t.count('trace_set_digests_compared')
+    t.check((samples.tobytes(), v.tobytes(), tid.tobytes()) == ths_snapshot, 'trace_set_modified_by_run', lambda: dict(info, samples_changed=samples.tobytes() != ths_snapshot[0],
+                                                                                                                   metadata_changed=v.tobytes() != ths_snapshot[1]))
     if nruns > 1:
         t.count('multi_run_sequences')
     # ---- trace specification over the event log
